@@ -75,7 +75,7 @@ func genC16B(t *rapid.T) C16BCase {
 	// (An overriding descriptor.proto is an implicit dependency that is not
 	// visible in Imports(), so it cannot be handed on as the same object;
 	// compiling it twice into one table is a documented redefinition.)
-	wl.DescriptorOverride = ""
+	wl.dropOverride()
 	c := C16BCase{WL: wl, Par: []int{1, 2, 4}[rapid.IntRange(0, 2).Draw(t, "par")]}
 	comps := components(&wl)
 	k := rapid.IntRange(2, 3).Draw(t, "ngroups")
